@@ -161,6 +161,7 @@ Definition rstr (l : list Z) : val := VB (map Z.to_N l).
 Definition rviol (key : val) (step : nat) (detail : list val) : val := VL (key :: VI (Z.of_nat step) :: detail).
 Definition k_c17_inj := rstr [67;49;55;47;97;100;100;114;101;115;115;45;98;111;117;110;100;45;116;119;105;99;101].          (* C17/address-bound-twice *)
 Definition k_c17_unauth := rstr [67;49;55;47;117;110;97;117;116;104;111;114;105;115;101;100;45;98;105;110;100;105;110;103]. (* C17/unauthorised-binding *)
+Definition k_c17_orch2 := rstr [67;49;55;47;111;114;99;104;101;115;116;114;97;116;111;114;45;98;111;117;110;100;45;116;119;105;99;101]. (* C17/orchestrator-bound-twice *)
 Definition k_c17_orch := rstr [67;49;55;47;111;114;99;104;101;115;116;114;97;116;111;114;45;97;116;116;114;105;98;117;116;105;111;110]. (* C17/orchestrator-attribution *)
 Definition k_c16_recorded := rstr [67;49;54;47;114;101;99;111;114;100;101;100;45;119;105;116;104;111;117;116;45;99;111;110;100;105;116;105;111;110;115]. (* C16/recorded-without-conditions *)
 Definition k_c16_query := rstr [67;49;54;47;99;111;110;102;105;114;109;97;116;105;111;110;115;45;113;117;101;114;121].       (* C16/confirmations-query *)
@@ -221,6 +222,15 @@ Definition mon_reg_step (prop : Z) (step : nat) (o : rop) (prev cur : robs) (t :
          if ro_code cur =? 0 then
            (match rec with Some a => if beqb a e then [] else [rviol k_c17_unauth step [VB v; VB e]] | None => [rviol k_c17_unauth step [VB v; VB e]] end)
            ++ (if existsb (fun r => beqb (rv_addr r) v) (rt_vals t) then [] else [rviol k_c17_unauth step [VB v]])
+           (* the orchestrator account must not be serving another validator: one whose current address on this chain
+              was (last) registered together with this orchestrator *)
+           ++ (if existsb (fun b : bytes * bytes * bytes =>
+                             beqb (fst (fst b)) c && negb (beqb (snd (fst b)) v)
+                             && match find (fun r : bytes * bytes * bytes * bytes => beqb (fst (fst (fst r))) c && beqb (snd r) (snd b)) (rev (rt_regs t)) with
+                                | Some r => beqb (snd (fst r)) orch
+                                | None => false end)
+                          (ro_val_ext prev)
+               then [rviol k_c17_orch2 step [VB c; VB orch; VB v]] else [])
          else
            (* a refused registration leaves the maps alone *)
            if Nat.eqb (length (ro_val_ext prev)) (length (ro_val_ext cur)) && Nat.eqb (length (ro_orch_val prev)) (length (ro_orch_val cur)) then []
